@@ -11,7 +11,7 @@ from units.sym import types_from_repo
 HERE = os.path.dirname(os.path.abspath(__file__))
 
 SPEC = r'''
-use std::collections::HashMap;
+use std::collections::{HashMap, HashSet, BTreeMap, BTreeSet, VecDeque};
 verus! {
 global size_of usize == 8;
 #[derive(Clone, Copy, PartialEq, Eq, Structural)]
